@@ -11,15 +11,17 @@ from .p_c05 import fn_paths, PR, EPS
 TECHNIQUE = 'static analysis: event-language equality of the rational operations against their definitions; canonical-aggregate dataflow (every Num constructed is canonicalised before it escapes); the integer rules of C05'
 LEVEL = "other"
 EXPLANATION = (
-    "The rational type is a thin, definitional layer over the big integers, so its functions are compared on all CFG "
-    "paths with the mathematical definitions: add builds (a*d + b*c)/(b*d), mul builds (a*c)/(b*d), both return NaN "
-    "exactly when an operand is NaN and pass every non-NaN result through the canonicaliser; the canonicaliser divides "
-    "both parts by their gcd and THEN moves the sign to the numerator; flip swaps and repairs the sign, leaving NaN "
-    "alone; neg/minus touch only the numerator; is_pos/is_nan/floor/Display have their defining shape (integer printed "
-    "without denominator iff the denominator equals one, fixed NaN text); every Num aggregate in the crate is a "
-    "canonical constant, is canonicalised before it can escape, or is a field-wise negation of a canonical value; "
-    "operator impls delegate with operands in order. Exactness of the underlying integer arithmetic and the value "
-    "of gcd are NOT decided here (C05's undecided part)."
+    'The rational type is a thin, definitional layer over the big integers, so its functions are compared on all CFG '
+    'paths with the mathematical definitions: add builds (a*d + b*c)/(b*d), mul builds (a*c)/(b*d), both return NaN '
+    'exactly when an operand is NaN and pass every non-NaN result through the canonicaliser; the canonicaliser '
+    'divides both parts by their gcd and THEN moves the sign to the numerator; flip swaps and repairs the sign, '
+    'leaving NaN alone; neg/minus touch only the numerator; is_pos/is_nan/floor/Display have their defining shape '
+    '(integer printed without denominator iff the denominator equals one, fixed NaN text); every Num aggregate in the '
+    'crate is a canonical constant, is canonicalised before it can escape, or is a field-wise negation of a canonical '
+    'value; operator impls delegate with operands in order. The integer layer underneath (sign dispatch, operator '
+    'delegation, Euclid step of the gcd used by optimize, limb conservation laws, quotient search, magnitude '
+    'comparison) is decided by the rules of C05, re-run here as C06.INT.*; the inductions over whole numbers are NOT '
+    'mechanised.'
 )
 ASSUMPTIONS = [
     "rustc MIR (nightly 1.97, mir-opt-level=0); unwind edges ignored",
